@@ -496,6 +496,10 @@ func corpus() []job {
 		j(&gspec{Kind: "blocklist", Name: "b", Kids: []*gspec{attr("a", dynT, false)}}, "b {\n  a = 1\n}\nb {\n  a = true\n}\nb {\n}\n", false),
 		j(&gspec{Kind: "blocklist", Name: "b", Kids: []*gspec{attr("a", dynT, false)}}, "b {\n  a = [1]\n}\nb {\n}\n", false),
 		j(&gspec{Kind: "blockset", Name: "b", Kids: []*gspec{attr("a", dynT, false)}}, "b {\n  a = [1]\n}\nb {\n}\n", false),
+		// a set of blocks that hold a set of blocks: two blocks whose inner sets have the same members (in another
+		// order, repeated another number of times) are ONE element of the outer set (thorough run, case 6360)
+		j(&gspec{Kind: "blockset", Name: "b", Kids: []*gspec{obj("body", &gspec{Kind: "blockset", Name: "c", Min: 1, Kids: []*gspec{attr("a", num, false)}}, "l0", lbl(0))}},
+			"b \"k\" {\n  c {\n  }\n  c {\n  }\n  c {\n    a = 1\n  }\n}\nb \"k\" {\n  c {\n    a = 1\n  }\n  c {\n  }\n}\n", false),
 		// multi-label map, nothing present
 		j(map2, "", false),
 		j(map2, "i \"p\" \"q\" {\n  a = \"1\"\n}\ni \"p\" \"r\" {\n  a = \"2\"\n}\ni \"s\" \"r\" {\n}\n", false),
